@@ -12,6 +12,13 @@ NOTE = ("Trusted: Coq 8.16.1 kernel (full .vo build, vm_compute for finite sweep
         "regenerated from /repo on every run (defs.jq parse trees, native registry). Third-party crates are modelled by contract.")
 
 CLAIMED = {
+    "C17": ("Partial. Theorems about the model of the main loop (Cli/Main.v): outputs are written completely and in order, what was "
+            "written before an error stays written, output options change only the rendering and never the outcome, the exit status "
+            "table. Correspondence: the jaq binary (built from /repo every run) on option sets x filters x stdin streams (valid, "
+            "truncated, malformed): stdout bytes, stderr presence and exit status against the model's prediction; in-language oracles for "
+            "input/inputs consumption order, multiple files, input_filename, --arg/--argjson/--slurpfile/--rawfile/--args/$ENV, -f, "
+            "halt_error. Not covered: terminal detection, colours by environment, Windows.", "7.17",
+            "Coq proof (main loop model) + binary/model correspondence + CLI oracles (partial)"),
     "C07": ("Theorems: for all 256 bytes and both string kinds the reader undoes the writer's escape in one step; whole text strings "
             "and byte strings of arbitrary bytes (control characters, quotes, DEL, invalid UTF-8) survive print-then-parse. "
             "Correspondence: tojson, tojson|fromjson on exhaustive short strings, floats (edge + random bit patterns), integers of any "
